@@ -619,6 +619,7 @@ func (t *fnTrans) run() {
 			t.instr(in)
 		}
 		t.out[b] = t.cur
+		t.loopExitChecks(b)
 		// back edges leaving this block
 		for _, s := range b.Succs {
 			if isBackEdge(b, s) {
@@ -798,7 +799,9 @@ func (t *fnTrans) instr(in ssa.Instruction) {
 		t.send(in)
 	case *ssa.Store:
 		t.storeInstr(in)
-	case *ssa.If, *ssa.Jump:
+	case *ssa.If:
+		t.ifSite(in)
+	case *ssa.Jump:
 		// edges computed lazily
 	case *ssa.Return:
 		t.ret(in)
@@ -1047,6 +1050,7 @@ func (t *fnTrans) storeInstr(in *ssa.Store) {
 	l := t.locOf(in.Addr)
 	v := t.val(in.Val)
 	t.guardAccess(l, true, in.Pos())
+	t.ownWriteShared(in, l)
 	t.ownStoreHook(in, l)
 	// array-typed destinations
 	if at, ok := l.typ.Underlying().(*types.Array); ok && l.kind == locCell {
@@ -1750,4 +1754,55 @@ func (t *fnTrans) visibleVars() map[string]string {
 func (g *Gen) mapVarNames(m *types.Map) (dom, val string) {
 	k := sanitize(g.typeKey(m))
 	return "MD:" + k, "MV:" + k
+}
+
+
+// loopExitChecks: a loop declared `complete` may only be left from its header
+// (i.e. when its range / condition is exhausted), never by break or return.
+func (t *fnTrans) loopExitChecks(b *ssa.BasicBlock) {
+	if t.contract == nil || len(t.contract.loopComplete) == 0 {
+		return
+	}
+	for _, li := range t.loops {
+		if !t.contract.loopComplete[li.ord] || !li.blocks[b] || b == li.header {
+			continue
+		}
+		for _, s := range b.Succs {
+			if li.blocks[s] {
+				continue
+			}
+			save := t.cur
+			t.cur = t.h.child(t.out[b])
+			t.cur.reach = t.edgeTerm(b, s)
+			t.oblige("loop.complete", fmt.Sprintf("loop%d:early-exit", li.ord), b.Instrs[len(b.Instrs)-1].Pos(), "false", "the loop must visit every element: it is left before its range is exhausted")
+			t.cur = save
+		}
+	}
+}
+
+
+// ifSite: assertions attached to the two outcomes of a branch: `at if#n.then assert E`.
+func (t *fnTrans) ifSite(in *ssa.If) {
+	if t.contract == nil {
+		return
+	}
+	site := t.sites[in]
+	if site == "" {
+		return
+	}
+	t.siteState[site] = t.cur
+	c := t.val(in.Cond)
+	for _, br := range []struct{ suffix, cond string }{{".then", c}, {".else", not(c)}} {
+		for k, sl := range t.contract.at[site+br.suffix] {
+			e := t.selfCtx()
+			if term, ok := t.evalBool(e, sl); ok {
+				save := t.cur
+				t.cur = t.h.child(save)
+				t.cur.reach = and(save.reach, br.cond)
+				t.oblige("site", fmt.Sprintf("at:%s%s:%d", site, br.suffix, k+1), in.Pos(), term, "assert at "+site+br.suffix+": "+sl.text)
+				t.cur = save
+			}
+		}
+	}
+	t.cur = t.h.child(t.cur)
 }
